@@ -43,7 +43,7 @@ pub const DEVIATIONS: [&str; 27] = [
 ];
 
 pub fn run(ctx: &Ctx) -> Report {
-    let n = ctx.cases(60_000, 3_000_000);
+    let n = ctx.cases(300_000, 12_000_000);
     let local = run_cases(ctx, n, |case, l| one_case(ctx, case, l));
     let mut rep = Report::new(
         "fault_enumeration",
